@@ -97,18 +97,30 @@ let rec cexpr_of x = match lst x with
   | [A "l"; a; ne] -> T.CList (cexpr_of a, get_bool ne)
   | _ -> failwith "cexpr"
 
+(* c21.types: per range type, first the validator that is universal (TypesSym.check_type_any: symbolic for
+   bodies with lists of any length, enumeration for list-free bodies); types it cannot decide (lists AND
+   FetchAfter chains / shared node types) fall back to the enumeration with at most 2 repetitions per list *)
+let sym_universal = ref 0 and sym_bounded = ref 0
+let () = if Sys.getenv_opt "C21_SYMSTAT" <> None then
+  at_exit (fun () -> Printf.eprintf "c21.types: %d types validated universally, %d by bounded enumeration only\n" !sym_universal !sym_bounded)
+
 let () = Reg.register "c21.types" (fun inp _out ->
   let (types, bodies) = (match lst inp with [t; b] -> (t, lst b) | _ -> failwith "case") in
   let (rts, cats, inj) = parse_types types in
-  let run cats =
+  let run count cats =
     SL.map2 (fun fs bs ->
       let bs = SL.map cexpr_of (lst bs) in
       if bs = [] then true   (* a reported token: no accessors *)
-      else T.check_type (SL.map mcat cats) (SL.map mfield fs) (n_of_int inj) (nat_of_int 2) bs) rts bodies in
-  let res = run cats in
+      else begin
+        let mc = SL.map mcat cats and mf = SL.map mfield fs in
+        if TypesSym.check_type_any mc mf (n_of_int inj) (nat_of_int 2) bs then (if count then incr sym_universal; true)
+        else if T.check_type mc mf (n_of_int inj) (nat_of_int 2) bs then (if count then incr sym_bounded; true)
+        else false
+      end) rts bodies in
+  let res = run true cats in
   let verdict =
     if SL.for_all (fun b -> b) res then "ok"
-    else if SL.for_all (fun b -> b) (run (SL.map (fun (ts, _) -> (ts, true)) cats))
+    else if SL.for_all (fun b -> b) (run false (SL.map (fun (ts, _) -> (ts, true)) cats))
     then "bad:accessor-panics-absent-child-of-category-named-TokenSet"
     else "bad:inferred-fields-do-not-fit-some-child-sequence" in
   (L (SL.map put_bool res), verdict))
